@@ -27,7 +27,7 @@ try:
         res["checks"] = {}
         for pid in pids:
             t0 = time.time()
-            rc, out = sh(f"./check {pid}", "/verif", {"AQV_REPO": wt})
+            rc, out = sh(f"./check {pid}", os.environ.get("VERIF_DIR", "/verif"), {"AQV_REPO": wt})
             lines = [l for l in out.split("\n") if l.startswith(("VIOLATION", "KNOWN", "[C", "INFRA"))]
             res["checks"][pid] = dict(rc=rc, wall=round(time.time() - t0, 1), lines=[l[:300] for l in lines])
 finally:
